@@ -3,6 +3,7 @@ From Coq.Strings Require Import Byte String.
 From Coq Require Import List NArith Bool.
 Import ListNotations.
 From V Require Import lib.Bytes spec.Whatwg spec.CssScan gen.Tables05 model.Css.
+From V Require Import spec.HtmlTok spec.HtmlRefs spec.HtmlEntities spec.CssSink model.CssRender.
 Require Extraction.
 Require Import ExtrOcamlBasic.
 
@@ -86,6 +87,26 @@ Definition decls_ok (t : bytes) (n : nat) : bool :=
   | Some ds => Nat.eqb (length ds) n && forallb (fun d => name_ok (fst d) && confined (snd d) && urls_ok (snd d)) ds
   end.
 
+
+(* ---- rendered documents, read as a browser reads them (spec/CssSink.v) ---- *)
+(* structure signature: every token except attribute VALUES and the text inside <style> elements *)
+Fixpoint tsig (ts : list token) (in_style : bool) : bytes :=
+  match ts with
+  | [] => []
+  | TChar b :: r => if in_style then tsig r in_style else b :: tsig r in_style
+  | TStart n a sc :: r => [x00; x3c] ++ n ++ flat_map (fun kv => x00 :: fst kv) a ++ (if sc then [x2f] else []) ++ [x00; x3e] ++ tsig r (isn n "style")
+  | TEnd n :: r => [x00; x3c; x2f] ++ n ++ [x00; x3e] ++ tsig r false
+  | TComment d :: r => [x00; x21] ++ d ++ [x00; x3e] ++ tsig r in_style
+  | TDoctype d :: r => [x00; x44] ++ d ++ [x00; x3e] ++ tsig r in_style
+  end.
+(* css component properties, prefix-coded: C name value | D name expression-value *)
+Fixpoint parse_cprops (fuel : nat) (t : list bytes) : list cprop :=
+  match fuel with O => [] | S f =>
+  match t with
+  | tag :: n :: v :: r => if is tag "C" then CConst n v :: parse_cprops f r else if is tag "D" then CDyn n v :: parse_cprops f r else []
+  | _ => []
+  end end.
+
 Definition dispatch (f : bytes) (a : list bytes) : list bytes :=
   if is f "css" then
     (* args: property, value, oracle pairs.  reply: model output; the specification predicates on it *)
@@ -116,6 +137,36 @@ Definition dispatch (f : bytes) (a : list bytes) : list bytes :=
     | None => [bs "?parse"]
     | Some vals => match style_attr (oracle o) vals with None => [[x30]] | Some out => [[x31]; out] end
     end
+  else if is f "attr_doc" then
+    (* args: the rendered document, element name, number of (name, value) pairs written.
+       reply: style attribute found?; its raw value as tokenized; the CSS the browser's CSS parser receives
+              (character references decoded); the END-TO-END predicate style_attr_okb; the structure signature *)
+    let ts := tok (arg 0 a) in
+    match find_style (arg 1 a) ts with
+    | Some raw => let d := css_decode_attr raw in [[x31]; raw; d; b2 (decls_okb d (count (arg 2 a))); tsig ts false]
+    | None => [[x30]; []; []; [x30]; tsig ts false]
+    end
+  else if is f "attr_value" then
+    (* args: raw attribute value, number of pairs.  reply: decoded; decls_okb *)
+    let d := css_decode_attr (arg 0 a) in [d; b2 (decls_okb d (count (arg 1 a)))]
+  else if is f "style_doc" then
+    (* args: the rendered document, then the number of properties of each class written.
+       reply: number of style elements ("?" when one is not closed); text of the first; the END-TO-END predicate
+              style_elem_okb on it; the structure signature *)
+    let ts := tok (arg 0 a) in
+    match style_scan ts None [] with
+    | Some (t :: more) => [dec (N.of_nat (S (length more))); t; b2 (style_elem_okb t (map count (skipn 1 a))); tsig ts false]
+    | Some [] => [[x30]; []; [x30]; tsig ts false]
+    | None => [[x3f]; []; [x30]; tsig ts false]
+    end
+  else if is f "style_text_ok" then [b2 (style_elem_okb (arg 0 a) (map count (skipn 1 a)))]
+  else if is f "css_body" then
+    (* args: number of oracle pairs n, the 2n oracle tokens, then the property tokens.  reply: model css_body *)
+    let n := count (arg 0 a) in
+    let o := firstn (2 * n) (skipn 1 a) in
+    let t := skipn (1 + 2 * n) a in
+    [css_body (oracle o) (parse_cprops (length t) t)]
+  else if is f "decode_attr" then [css_decode_attr (arg 0 a)]
   else [bs "?"].
 
 Extraction "model.ml" dispatch.
